@@ -87,10 +87,10 @@ type p1pubkey struct{}
 
 func (p1pubkey) Marshal() []byte               { b := make([]byte, 48); b[0] = 0xaa; return b }
 func (p1pubkey) Aggregate(e2types.PublicKey)   {}
-func (k p1pubkey) Copy() e2types.PublicKey      { return k }
-func (p1account) ID() uuid.UUID                 { return uuid.UUID{1} }
-func (p1account) Name() string                  { return "proposer" }
-func (p1account) PublicKey() e2types.PublicKey  { return p1pubkey{} }
+func (k p1pubkey) Copy() e2types.PublicKey     { return k }
+func (p1account) ID() uuid.UUID                { return uuid.UUID{1} }
+func (p1account) Name() string                 { return "proposer" }
+func (p1account) PublicKey() e2types.PublicKey { return p1pubkey{} }
 
 var _ e2wtypes.Account = p1account{}
 
@@ -102,8 +102,8 @@ type p1relay struct {
 	first func() uint64
 }
 
-func (r *p1relay) Name() string             { return fmt.Sprintf("relay-%d", r.id) }
-func (r *p1relay) Address() string          { return fmt.Sprintf("http://relay-%d.c16.invalid", r.id) }
+func (r *p1relay) Name() string              { return fmt.Sprintf("relay-%d", r.id) }
+func (r *p1relay) Address() string           { return fmt.Sprintf("http://relay-%d.c16.invalid", r.id) }
 func (r *p1relay) Pubkey() *phase0.BLSPubKey { return nil }
 func (r *p1relay) BuilderBid(context.Context, *builderapi.BuilderBidOpts) (*builderapi.Response[*builderspec.VersionedSignedBuilderBid], error) {
 	return nil, errors.New("not scripted")
@@ -160,7 +160,9 @@ func (e *p1env) AuctionBlock(context.Context, phase0.Slot, phase0.Hash32, phase0
 	return e.res, nil
 }
 
-func (e *p1env) ExecutionChainHead(context.Context) (phase0.Hash32, uint64) { return phase0.Hash32{1}, 7 }
+func (e *p1env) ExecutionChainHead(context.Context) (phase0.Hash32, uint64) {
+	return phase0.Hash32{1}, 7
+}
 
 func (e *p1env) ValidatingAccountsForEpoch(context.Context, phase0.Epoch) (map[phase0.ValidatorIndex]e2wtypes.Account, error) {
 	return map[phase0.ValidatorIndex]e2wtypes.Account{1: p1account{}}, nil
